@@ -13,7 +13,7 @@ import (
 
 func main() {
 	if len(os.Args) < 2 {
-		fmt.Fprintln(os.Stderr, "usage: netfail hist [flags]")
+		fmt.Fprintln(os.Stderr, "usage: netfail hist|guard [flags]")
 		os.Exit(2)
 	}
 	fs := flag.NewFlagSet(os.Args[1], flag.ExitOnError)
@@ -27,6 +27,8 @@ func main() {
 	switch os.Args[1] {
 	case "hist":
 		runHist(*n, *out, *replay, *known, *par, int64(*stream))
+	case "guard":
+		runGuard(*n, *out, *replay, *par, int64(*stream))
 	default:
 		fmt.Fprintln(os.Stderr, "unknown subcommand")
 		os.Exit(2)
